@@ -14,8 +14,9 @@ from vlib.tlaparse import to_json, parse_behaviour_text
 
 WEAK_CASES = ["SkipTrustLevel", "AdjacentIgnoresNextVals", "NoExpiry", "FutureHeaderOK", "TrustLevelOnNewSet"]
 WEAK_CLIENT = ["SkipTrustLevel", "AdjacentIgnoresNextVals", "NoExpiry", "FutureHeaderOK", "TrustLevelOnNewSet",
-               "MismatchAlsoCountsAsMatch", "NoWitnessNeeded", "BackwardsUnbound", "ReplacementHashUnchecked"]
-PROPS = {"TrustRootOnly", "StoreSound", "WitnessConfirmed", "NoConfirmationFromSilence", "AttackReported",
+               "MismatchAlsoCountsAsMatch", "NoWitnessNeeded", "BackwardsUnbound", "ReplacementHashUnchecked",
+               "PromotedWitnessStays"]
+PROPS = {"TrustRootOnly", "StoreSound", "WitnessConfirmed", "IndependentWitness", "NoConfirmationFromSilence", "AttackReported",
          "AttackStoresNothing", "StoreMonotone"}
 CASE_PROPS = {"VerifierSound", "AdjacentSound", "NonAdjacentSound", "BackwardsSound"}
 
@@ -250,6 +251,20 @@ def run(ctx):
     # (findNewPrimary promotes the only witness and removeWitnesses then refuses to empty the
     # list) the same provider is primary AND witness, and from then on confirms itself
     self_witness = sum(1 for r in rows_r if r["ev"] != "Reset" and r["post"]["primary"] in r["post"]["wits"])
+    self_confirmed = 0
+    blocks, prev_store = {}, []
+    for r in rows_r:
+        if r["ev"] == "Reset":
+            blocks, prev_store = r["blocks"], []
+            continue
+        new = [b for b in r["post"]["store"] if b not in prev_store and b in blocks]
+        prev_store = r["post"]["store"]
+        if r["ev"] == "NewClient" or not new:
+            continue
+        hids = {blocks[b]["hid"] for b in new}
+        conf = {o["p"] for o in r["obs"] if o["ph"] == "det" and o["r"] in blocks and blocks[o["r"]]["hid"] in hids}
+        if conf and conf <= {r["post"]["primary"]}:
+            self_confirmed += 1
     rc_, rs_ = t["r_cases"], t["r_sim"]
     rcl_d = sum(r.distinct for r in t["r_client"])
     rcl_g = sum(r.generated for r in t["r_client"])
@@ -280,7 +295,8 @@ def run(ctx):
         "result_classes_observed": res_classes,
         "distinct_witness_reply_orders_observed": len(orders),
         "simulated_states": rs_.generated,
-        "observations": {"calls_after_which_the_primary_is_also_listed_as_witness": self_witness},
+        "observations": {"calls_after_which_the_primary_is_also_listed_as_witness": self_witness,
+                         "headers_stored_whose_only_confirming_witness_is_the_primary_itself": self_confirmed},
         "conformance_drift": [{"what": d["what"], "spec": d.get("spec"), "step": core.abridge(d["row"])} for d in drift[:5]],
         "conformance_drift_count": len(drift),
         "nonvacuity": t["nonvacuity"],
